@@ -89,6 +89,14 @@ class Check:
         if not cond:
             raise AnalysisError(msg)
 
+    def missing(self, rule, what, f, detail=""):
+        """A step the rule is about is no longer present in a function that still exists: that is a verdict
+        on the code (the required step was dropped), not a failure of the analysis.  Use only for steps whose
+        absence from `f` breaks the property; a step that merely moved into a helper must be searched for
+        there by the caller before calling this."""
+        self.ob(rule, "required step present: " + what, False, f.where(), detail=detail or "the step was not found on any path of " + f.qualname,
+                construct=f.ident, text="missing: " + what)
+
     def expect(self, cond, msg):
         """Soft requirement (anchor / instance count): reported as an analysis
         error at the end of the run unless the run found violations -- a
